@@ -148,7 +148,7 @@ func (e *Engine) checkProperty(prop string, o runOpts) int {
 		if con == nil {
 			con = e.Contracts[k]
 		}
-		res := e.buildVC(k, con)
+		res := e.buildVCFix(k, con, o)
 		done[k] = res
 		for _, u := range res.UsedCon {
 			if c := e.Contracts[u]; c != nil && !c.Assumed {
@@ -163,11 +163,19 @@ func (e *Engine) checkProperty(prop string, o runOpts) int {
 		res *FuncResult
 		g   *Goal
 	}
-	var jobs []job
+	var jobs, jobsPre []job
 	broken := []string{}
 	for _, k := range sortedKeys(done) {
 		res := done[k]
 		if res.Err != "" {
+			if strings.Contains(res.Err, "contract error") && strings.Contains(res.Err, "invariant") {
+				// the changed code no longer matches the loop contract: the invariant obligations cannot be established
+				g := &Goal{Name: k + "#inv-init#unresolvable", Func: k, Kind: "inv-init", Status: "unknown", Text: "loop invariant cannot be stated against the current code: " + res.Err, Output: res.Err}
+				res.Goals = []*Goal{g}
+				res.Err = ""
+				jobsPre = append(jobsPre, job{res, g})
+				continue
+			}
 			broken = append(broken, k+": "+res.Err)
 			continue
 		}
@@ -184,6 +192,7 @@ func (e *Engine) checkProperty(prop string, o runOpts) int {
 		return 2
 	}
 	byCtx := map[*Ctx][]*Goal{}
+	defer func() { _ = jobsPre }()
 	for _, j := range jobs {
 		byCtx[j.res.Ctx] = append(byCtx[j.res.Ctx], j.g)
 	}
@@ -206,15 +215,26 @@ func (e *Engine) checkProperty(prop string, o runOpts) int {
 		<-donec
 	}
 	// second chance for undecided goals: alone, with a longer timeout (avoids load-induced timeouts)
-	for c, gs := range byCtx {
-		for _, g := range gs {
-			if g.Status == "unknown" && !g.ExpectSat {
-				if o.Verbose {
-					fmt.Println("gvc: retrying", g.Name)
+	{
+		rsem := make(chan struct{}, 3)
+		rdone := make(chan struct{})
+		rn := 0
+		for c, gs := range byCtx {
+			for _, g := range gs {
+				if g.Status == "unknown" && !g.ExpectSat {
+					rn++
+					go func(c *Ctx, g *Goal) {
+						rsem <- struct{}{}
+						discharge(c, []*Goal{g}, dischargeOpts{Timeout: 3 * o.Timeout, All: o.All, Workdir: o.Workdir, Par: 1})
+						g.Retried = true
+						<-rsem
+						rdone <- struct{}{}
+					}(c, g)
 				}
-				discharge(c, []*Goal{g}, dischargeOpts{Timeout: 3 * o.Timeout, All: o.All, Workdir: o.Workdir, Par: 1})
-				g.Retried = true
 			}
+		}
+		for i := 0; i < rn; i++ {
+			<-rdone
 		}
 	}
 	if os.Getenv("GVC_SLOW") != "" {
@@ -247,6 +267,7 @@ func (e *Engine) checkProperty(prop string, o runOpts) int {
 	known := 0
 	brokenGoals := 0
 	var lines []string
+	jobs = append(jobs, jobsPre...)
 	sort.Slice(jobs, func(i, j int) bool { return jobs[i].g.Name < jobs[j].g.Name })
 	for _, j := range jobs {
 		g := j.g
